@@ -23,7 +23,7 @@ PLAN = {'quick': [('edit', 15000)], 'thorough': [('edit', 400000)]}
 TIMEOUT = {'quick': 900, 'thorough': 6 * 3600}
 RULE = ('each run: a seeded history of 4-16 operations over a set of live models (add '
         'Constant/Operation/Prior/Simulator/Summary/Discrepancy/Distance with explicit or '
-        'name* names, positional node and constant parents; a.become(b) where defined; '
+        'name* names, positional node and constant parents; named (keyword) edges via add_edge; a.become(b) where defined; '
         'remove_node of leaves; set parameter_names; set/delete observed data; set uses_meta; '
         'copy(); save()+load()), each operation applied to a tape-chosen party; after every '
         'step EVERY party is compared with its own reference graph (canonical form with private '
@@ -59,14 +59,16 @@ class RefModel:
         return pycopy.deepcopy(self)
 
     def children(self, name):
-        return [n for n, d in self.nodes.items() if ('n', name) in d['pos']]
+        return [n for n, d in self.nodes.items()
+                if ('n', name) in d['pos'] or name in d.get('named', {}).values()]
 
     def ancestors(self, name):
         out = set()
         stack = [name]
         while stack:
             x = stack.pop()
-            for k, p in self.nodes[x]['pos']:
+            for k, p in list(self.nodes[x]['pos']) + [('n', q) for q in
+                                                      self.nodes[x].get('named', {}).values()]:
                 if k == 'n' and p not in out:
                     out.add(p)
                     stack.append(p)
@@ -76,7 +78,8 @@ class RefModel:
         return {n for n in self.nodes if name in self.ancestors(n)}
 
     def canon(self):
-        return ({n: (d['cls'], d['op'], tuple(d['pos']), bool(d['param']), bool(d['meta']))
+        return ({n: (d['cls'], d['op'], tuple(d['pos']), bool(d['param']), bool(d['meta']),
+                     tuple(sorted(d.get('named', {}).items())))
                  for n, d in self.nodes.items()}, dict(self.observed))
 
     def parameter_names(self):
@@ -117,7 +120,10 @@ def real_canon(model):
                         if isinstance(net[u][n]['param'], int))
         if params != list(range(len(params))):
             pos.append(('BAD-POSITIONS', tuple(params)))
-        nodes[n] = (cls, op, tuple(pos), '_parameter' in st, bool(st.get('_uses_meta', False)))
+        named = tuple(sorted((net[u][n]['param'], u) for u in net.predecessors(n)
+                             if not isinstance(net[u][n]['param'], int)))
+        nodes[n] = (cls, op, tuple(pos), '_parameter' in st, bool(st.get('_uses_meta', False)),
+                    named)
     obs = {k: sp.dg(v) for k, v in model.observed.items()}
     return nodes, obs
 
@@ -332,6 +338,28 @@ def _run(tape, out, elfi, root):
         r.nodes[n]['meta'] = True
         return 'set-uses_meta'
 
+    def add_named_edge(P):
+        m, r = P.model, P.ref
+        kids = [n for n in sorted(r.nodes) if r.nodes[n]['cls'] in ('Operation', 'Simulator',
+                                                                     'Summary')]
+        cands = []
+        for c in kids:
+            for par in sorted(r.nodes):
+                if par == c or par in r.descendants(c) or ('n', par) in r.nodes[c]['pos'] \
+                        or par in r.nodes[c].get('named', {}).values():
+                    continue
+                cands.append((par, c))
+        if not cands:
+            return None
+        par, c = cands[tape.int('named_pair', 0, len(cands) - 1)]
+        free = [k for k in ('alpha', 'beta', 'w') if k not in r.nodes[c].get('named', {})]
+        if not free:
+            return None
+        pname = tape.choice('param_name', free)
+        m.add_edge(par, c, param_name=pname)
+        r.nodes[c].setdefault('named', {})[pname] = par
+        return 'add-named-edge'
+
     def do_copy(P):
         k = P.model.copy()
         parties.append(Party(k, P.ref.clone(), 'copy'))
@@ -351,12 +379,12 @@ def _run(tape, out, elfi, root):
         else:
             opname = tape.choice('op', ['add', 'add', 'become', 'remove', 'set_params',
                                         'set_observed', 'copy', 'saveload', 'set_meta', 'add',
-                                        'copy'])
+                                        'copy', 'named_edge', 'become'])
         if opname in ('copy', 'saveload') and len(parties) >= 4:
             opname = 'add'
         fn = {'add': add_node, 'become': become, 'remove': remove, 'set_params': set_params,
               'set_observed': set_observed, 'copy': do_copy, 'saveload': do_saveload,
-              'set_meta': set_meta}[opname]
+              'set_meta': set_meta, 'named_edge': add_named_edge}[opname]
         try:
             done = fn(P)
         except Exception as e:
